@@ -156,7 +156,8 @@ fn parse_resp(frame: &[u8]) -> Value {
     let b = u64::from_le_bytes(h[32..40].try_into().unwrap()) as usize;
     let ec = u32::from_le_bytes(h[44..48].try_into().unwrap());
     // an error response's body is a human-readable message: not part of what transports must agree on
-    let body = if ec == 0 { util::hex(&frame[48 + q..48 + q + b]) } else { "-".to_string() };
+    // (a very large body is summarised: length and a checksum)
+    let body = if ec != 0 { "-".to_string() } else if b > 65536 { format!("len:{b}:sum:{}", frame[48 + q..48 + q + b].iter().fold(0u64, |a, x| a.wrapping_mul(31).wrapping_add(*x as u64))) } else { util::hex(&frame[48 + q..48 + q + b]) };
     json!({"ev": "resp", "id": u64::from_le_bytes(h[16..24].try_into().unwrap()), "ec": ec,
            "notify": h[11], "qfmt": u16::from_le_bytes(h[40..42].try_into().unwrap()), "bfmt": u16::from_le_bytes(h[42..44].try_into().unwrap()),
            "query": util::hex(&frame[48..48 + q]), "body": body})
@@ -200,12 +201,18 @@ fn run_tcp(addr: std::net::SocketAddr, frames: &[Vec<u8>], expect: usize, log: &
 }
 
 fn run_ws(addr: std::net::SocketAddr, frames: &[Vec<u8>], expect: usize, log: &Arc<Log>) -> bool {
+    run_ws_stalled(addr, frames, expect, log, 0)
+}
+/// as run_ws, but the client does not start reading until `stall_ms` after its last request (backs the writer up)
+fn run_ws_stalled(addr: std::net::SocketAddr, frames: &[Vec<u8>], expect: usize, log: &Arc<Log>, stall_ms: u64) -> bool {
     let s = TcpStream::connect(addr).unwrap();
     s.set_nodelay(true).ok();
-    let (mut ws, _) = tungstenite::client::client(format!("ws://{addr}/ws"), s).expect("ws client handshake");
+    let cfg = tungstenite::protocol::WebSocketConfig { max_frame_size: None, max_message_size: None, ..Default::default() };
+    let (mut ws, _) = tungstenite::client::client_with_config(format!("ws://{addr}/ws"), s, Some(cfg)).expect("ws client handshake");
     for f in frames {
         ws.send(tungstenite::Message::Binary(f.clone().into())).unwrap();
     }
+    if stall_ms > 0 { std::thread::sleep(Duration::from_millis(stall_ms)); }
     ws.get_ref().set_read_timeout(Some(Duration::from_millis(1500))).ok();
     let mut got = 0;
     let mut idle = false;
@@ -324,6 +331,33 @@ pub fn c03(a: &Args) -> i32 {
             for e in log.drain_sorted() {
                 out.push(&e);
             }
+        }
+    }
+    // ---- a backed-up writer: the outbound queue holds ONE message, the peer does not read while twelve off-reader
+    // handlers produce 1 MiB responses; every one of them must still arrive, once
+    {
+        let rq = build_router(&log);
+        let lq = rt.block_on(WebSocketServer::listen("127.0.0.1:0")).unwrap();
+        let q_addr = lq.local_addr().unwrap();
+        rt.spawn(async move {
+            let _ = WebSocketServer::new(rq).with_limits(repe::WebSocketLimits::unlimited()).with_offreader_limit(0).with_outbound_capacity(1).serve_listener(lq, "/ws").await;
+        });
+        std::thread::sleep(Duration::from_millis(30));
+        let big = Class { name: "json_ok", path: "/json", blocking: true, qfmt: 1, bfmt: 2, body: serde_json::to_vec(&json!({"a": 5, "pad": "p".repeat(1 << 20)})).unwrap(), version: 1, raw_query: None };
+        for rep in 0..2usize {
+            let _ = log.drain_sorted();
+            log.push(json!({"ev": "reset", "transport": "ws_offreader", "seq": 100000 + rep, "n": 12}));
+            let mut frames = vec![];
+            for i in 0..12usize {
+                next_id += 7;
+                let (f, q) = frame_for(&big, true, next_id, false);
+                log.push(json!({"ev": "req", "i": i + 1, "id": next_id, "notify": false, "class": big.name, "query": util::hex(&q), "offreader": true}));
+                frames.push(f);
+            }
+            let idle = run_ws_stalled(q_addr, &frames, 12, &log, 400);
+            std::thread::sleep(Duration::from_millis(80));
+            log.push(json!({"ev": "end", "idle": idle}));
+            for e in log.drain_sorted() { out.push(&e); }
         }
     }
     let lines = out.lines;
